@@ -19,7 +19,7 @@ class VNum (α : Type) extends VOrd α, Add α, Sub α, Mul α, Div α where
   log2 : α → α
   /-- `1. / (T) n` as written in `esl_vec_{D,F}Norm` (the float version divides in double) -/
   uniform : Nat → α
-  /-- `!isfinite(x) || x < 0.0 || x > 1.0` (D) / `x < 0.0 || x > 1.0` (F): the element test of `Validate` -/
+  /-- `!isfinite(x) || x < 0.0 || x > 1.0`: the element test of `Validate` -/
   notProb : α → Bool
   /-- `fabs(sum - 1.0) > tol` (evaluated in double in both versions) -/
   offOne : α → α → Bool
@@ -158,6 +158,8 @@ def log2Norm [VInf α] (v : List α) : Option (List α) :=
 /-- `esl_vec_{D,F}LogValidate` as the source intends (Exp, then Validate) -/
 def logValidate [VInf α] (v : List α) (tol : α) : Bool :=
   if v.isEmpty then true else validate (vexp v) tol
+def log2Validate [VInf α] (v : List α) (tol : α) : Bool :=
+  if v.isEmpty then true else validate (v.map exp2) tol
 
 end generic
 
@@ -192,7 +194,7 @@ instance : VNum Float32 where
   eq a b := a == b
   log2 := Float32.log2
   uniform n := (1.0 / (Float32.ofNat n).toFloat).toFloat32
-  notProb x := x < 0.0 || x > 1.0
+  notProb x := !x.isFinite || x < 0.0 || x > 1.0
   offOne s tol := Float.abs (s.toFloat - 1.0) > tol.toFloat
   klAdd kl p q := (kl.toFloat + p.toFloat * Float.log2 (p / q).toFloat).toFloat32
 
